@@ -31,12 +31,12 @@ CHECKS = {
  "C07": dict(
   engine="read-fault-sim+conservation-monitor", category="fault_enumeration", design_ref="DESIGN.md 4.7",
   technique="deterministic simulation with a run-time conservation monitor on Context.pop_tokens/update; fault injection of unrecognisable fragments at every statement boundary with the trailing newline kept or lost",
-  text="Wrappers of Context.pop_tokens, Context.update and Registry.run_rules record one event per main-loop iteration; invariants I1 (every iteration consumes >=1 token, segments consecutive and covering), I2 (in files the tool itself finds clean every statement starts at column 1 and ends at a line end; generated files: statements recognised == statements emitted) and I3 (scope back at file level after each function) are checked while runs proceed. In the fault configuration every statement boundary of every base program gets seeded fragments of the unrecognisable family, newline kept or lost, through the real main(): whenever the monitor saw an iteration matching no primary, the run must end with the fatal line naming the file and non-zero status (I4).",
+  text="Wrappers of Context.pop_tokens, Context.update and Registry.run_rules record one event per main-loop iteration; invariants I1 (every iteration consumes >=1 token, segments consecutive and covering), I2 (in files the tool itself finds clean every statement starts at column 1 and ends at a line end; generated files: statements recognised == statements emitted) and I3 (scope back at file level after each function) are checked while runs proceed. In the fault configuration every statement boundary of every base program gets seeded fragments of the unrecognisable family, newline kept or lost, through the real main(): whenever the monitor saw an iteration matching no primary, the run must end with the fatal line naming the file and non-zero status (I4), in both output formats. Multi-file runs: every file that gets a verdict line has a complete monitor record - examined once, all tokens consumed, nothing unmatched (I5). Generated programs: scope level before each statement equals its nesting depth by construction.",
   note="'Unrecognisable' is measured by the monitor, not assumed. I4 asserted for default options only. Boundaries are enumerated per base program; base programs and (in the quick tier) fragments are sampled."),
  "C08": dict(
   engine="cli-sim+wellformedness-monitor", category="exploration", design_ref="DESIGN.md 4.8",
   technique="deterministic simulation varying the emission order of diagnostics (explicit permutations of Errors._inner before formatting), the output format and input damage; well-formedness monitor on every printed report",
-  text="Every report printed by a simulated run is checked for W1 (catalogue code/text, level, position inside the delivered content) and W2 (ascending printed positions); each run is paired with its -f json twin (W3: stdout is one JSON document describing the same files, verdicts, diagnostics, order) and re-run under K explicit permutations of the diagnostics' emission order (W4: report identical up to ties of equal position and code). Damaged inputs (torn reads, token edits, lexical junk, non-ASCII) provide multi-highlight diagnostics, ties and non-ASCII text; synthetic diagnostic lists over a 4x4 position grid are pushed through both formatters under permutations.",
+  text="Every report printed by a simulated run is checked for W1 (catalogue code/text, level, position inside the delivered content) and W2 (ascending printed positions); each run is paired with its -f json twin (W3: stdout is one JSON document describing the same files, verdicts, diagnostics, order) and re-run under K explicit permutations of the diagnostics' emission order (W4: report identical up to ties of equal position and code). Damaged inputs (torn reads, token edits, lexical junk, non-ASCII) provide multi-highlight diagnostics, ties and non-ASCII text; synthetic diagnostic lists over a 4x4 position grid are pushed through both formatters under permutations; W1/W2 are also evaluated at API level on every line-boundary short read of every pool file and every lost line tail of every repository sample.",
   note="Weakest fit of the technique (configuration/emission-order swarming, no fault in the statement). Comparator laws are sampled through synthetic lists, not enumerated. Runs with a fatal file are excluded from W3 (statement silent). One open known finding: BAD_LEXEME is not a catalogue code."),
  "C15": dict(
   engine="cli-sim", category="exploration", design_ref="DESIGN.md 4.15",
@@ -46,7 +46,7 @@ CHECKS = {
  "C16": dict(
   engine="cli-sim", category="exploration", design_ref="DESIGN.md 4.16",
   technique="deterministic simulation over the run configuration: the full 216-vector option lattice per sampled file and the input channel (disk read through the open seam vs argv); oracle relative to the reference vector run alone",
-  text="For each sampled workload file (all classes, both file types) all 216 option vectors {--no-colors} x {-f json|humanized} x {-o} x {none,-d,-dd} x {none,-R <word>,-R CheckDefine} x {disk, inline with the matching flag, inline with the other flag + --filename} are executed through the real main(), each in its own forked child; the report as printed (the print of the formatter object is captured at the print seam, so debug chatter cannot be confused with it, and its text is parsed in the requested format) must equal the reference vector's: same verdict and (level, code, line, column, text). -R CheckDefine: diagnostics are a sub-multiset of the reference, the removed ones emitted by the #define-value check (measured from which check class called Errors.add) on #define lines.",
+  text="For each sampled workload file (all classes, both file types) all 216 option vectors {--no-colors} x {-f json|humanized} x {-o} x {none,-d,-dd} x {none,-R <word>,-R CheckDefine} x {disk, inline with the matching flag, inline with the other flag + --filename} are executed through the real main(), each in its own forked child; the report as printed (the print of the formatter object is captured at the print seam, so debug chatter cannot be confused with it, and its text is parsed in the requested format) must equal the reference vector's: same verdict and (level, code, line, column, text). -R CheckDefine: diagnostics are a sub-multiset of the reference, the removed ones emitted by the #define-value check (measured from which check class called Errors.add) on #define lines, and that check emits nothing in the variant run. Multi-file invocations under seeded vectors: each file is held against its own reference.",
   note="Option lattice exhaustive per file; files sampled. Domain: contents without CR/NUL. Runs that reach no verdict under one of the two vectors are excluded from (a), as the statement says."),
  "C06": dict(
   engine="history-sim", category="exploration", design_ref="DESIGN.md 4.6",
